@@ -410,6 +410,7 @@ fn end_to_end(list: &[Prop], trace: bool) -> CaseResult {
 
 pub fn check(tier: &str) -> i32 {
     let mut rep = Report::new("C16", tier, "exploration");
+    rep.case_limit = Duration::from_secs(30);
     let thorough = rep.thorough();
     rep.assume("a property with an empty key and a value ('=v') is a don't-care: RFC 6763 tells receivers to ignore it, the crate keeps it");
     let menu = prop_menu();
